@@ -7,7 +7,7 @@
 set -u
 J=4
 if [ "${1:-}" = "-j" ]; then J=$2; shift 2; fi
-IDS=${*:-$(ls /verif/benign)}
+IDS=${*:-$(for d in /verif/benign/*; do [ -f $d/reclassified.txt ] || basename $d; done)}
 run_one() {
 	id=$1; p=${id%%_*}
 	out=$(/verif/tools/scratch_eval.sh /verif/benign/$id/patch.diff quick $p 2>&1 | grep -v conda | tail -n 3 | tr '\n' ' ')
